@@ -73,10 +73,6 @@ class Interp(BaseMixin, ExprMixin, AttrMixin, CallMixin, BuiltinsMixin, StmtMixi
     def bm_rec_setattr(self, rec, args, kwargs, fr, node):
         return self.object_setattr(rec, args[0], args[1], fr, node)
 
-    def summarise_loop(self, node, fr, kind, space):
-        raise Untranslatable(f'loop at {fr.qualname}:{node.lineno} over a sequence of unknown length '
-                             f'needs an invariant')
-
 
 _AUX: Dict[Any, Any] = {}
 _SPEC_DEFS: Dict[str, Any] = {}
